@@ -58,10 +58,11 @@ class Ctx:
         self.track = False  # remember where a violation was seen, for minimisation of random histories
         self.cur = None
         self.origin = {}
+        self.known = frozenset()  # keys already reported by an earlier phase (a worker need not keep its own case for them)
 
     def bad(self, key, what, case):
         self.evals += 1
-        if key not in self.viol:
+        if key not in self.viol and key not in self.known:
             self.viol[key] = (_ADDR.sub("0x..", what), case)
             if self.track:
                 self.origin[key] = self.cur
@@ -587,6 +588,18 @@ def random_histories(C, rng, count, maxlen):
             C.distinct.add(("random", digest((hist_sig(hist)))))
 
 
+def _random_chunk(args):
+    import random
+    seed, count, maxlen, known = args
+    C = Ctx()
+    C.known = known
+    C.track = True
+    random_histories(C, random.Random(seed), count, maxlen)
+    C.track = False
+    minimise(C)
+    return C
+
+
 def replay(hist, op, keys):
     """keys of the violations shown by the final action (mutator `op`, or the read contracts) after history `hist`"""
     S = Ctx()
@@ -645,21 +658,28 @@ def main():
     mid_ops = make_ops(mid_keys, mid_vals, [N1, NS()], setattr_keys=mid_keys, steps_keys=["a.b", "a.items", "a.b.c", "items.keys.pop"])
     # family "names": every clashing name (and a dict-only attribute name) in every position of depth <= 3 keys with 'a'
     bound = []
-    d_deep, d_mid, d_names = (6, 3, 3) if h.thorough else (4, 2, 2)
+    d_deep, d_mid, d_names = (6, 2, 3) if h.thorough else (4, 2, 2)
     total = explore(C, "deep", deep_ops, deep_keys, d_deep, workers)
     bound.append(f"deep: all histories of length <= {d_deep} over {len(deep_ops)} mutator instances (keys {deep_keys}; values 1, {D1}, Namespace(b=Namespace(c=2), items=3)) = {total} distinct states")
     total = explore(C, "mid", mid_ops, mid_keys, d_mid, workers)
     bound.append(f"mid: length <= {d_mid} over {len(mid_ops)} mutator instances (keys {mid_keys}; 8 plain values incl. None, mixed list, list of dicts, tuple, empty and clash-keyed dict; 2 namespace values; step-by-step set) = {total} states")
+    if h.thorough:
+        mid3_vals = [1, None, {}, D1, {"items": {"get": 1}}]
+        mid3_ops = make_ops(mid_keys, mid3_vals, [N1, NS()], setattr_keys=mid_keys, steps_keys=["a.b", "a.items", "a.b.c", "items.keys.pop"])
+        total = explore(C, "mid3", mid3_ops, mid_keys, 3, workers)
+        bound.append(f"mid3: length <= 3 over {len(mid3_ops)} mutator instances (same keys as mid; values 1, None, {{}}, the two dicts, the two namespaces) = {total} states")
     names = list(CLASH) + ["copy"]
     with multiprocessing.get_context("fork").Pool(min(workers, len(names))) as pool:
         for Cw, total, nops in pool.map(_names_family, [(X, d_names) for X in names], chunksize=1):
             C.merge(Cw)
     bound.append(f"names: for each X in {names}: length <= {d_names} over keys of depth 1-3 from {{a, X}} ({nops} mutator instances each; dict and namespace values keyed by a and X)")
     n_rand, maxlen = (3000, 40) if h.thorough else (150, 40)
-    C.track = True
-    random_histories(C, h.rng, n_rand, maxlen)
-    C.track = False
-    minimise(C)
+    chunk = 25
+    seeds = [h.rng.getrandbits(48) for _ in range(0, n_rand, chunk)]
+    known = frozenset(C.viol)
+    with multiprocessing.get_context("fork").Pool(workers) as pool:
+        for Cw in pool.map(_random_chunk, [(sd, min(chunk, n_rand - i * chunk), maxlen, known) for i, sd in enumerate(seeds)], chunksize=1):
+            C.merge(Cw)
     bound.append(f"random: {n_rand} seeded histories of length 6..{maxlen} over all 11 names, depth 1-3, 18 values, incl. clone/get/contains")
 
     h.evaluations += C.evals
